@@ -2,8 +2,9 @@
 
 One line = one scenario:
   (run <flavour> <op> <op> ...)
-  flavour ::= (native <sig> <bool>) | (decorated <sig> <bool>) | (wrapped <sig> callable|method|noncallable|absent)
-  sig     ::= ((pos..) (kw..) <bool varkw> (mandatory..) ((k v)..defaults))
+  flavour ::= (native <sig> <bool>) | (custom <sig>) | (decorated <sig> <bool>)
+            | (wrapped <sig> callable|method|noncallable|absent)
+  sig     ::= ((pos..) (kw..) <bool varkw> (mandatory..) ((k v)..defaults) (hidden..))
 answer: (ok <obs> <obs> ...) with one observation per op, or bad-op.
 The user functions are the integer toy functions of harness/props/c13.py.
 -/
@@ -25,9 +26,9 @@ def pmap? : Sexp → Option PMap
   | _ => none
 
 def sig? : Sexp → Option Sig
-  | .list [pos, kw, varkw, mand, defs] => do
+  | .list [pos, kw, varkw, mand, defs, hidden] => do
     pure { pos := ← pos.natList?, kw := ← kw.natList?, varkw := ← bool? varkw,
-           mandatory := ← mand.natList?, defaults := ← pmap? defs }
+           mandatory := ← mand.natList?, defaults := ← pmap? defs, hidden := ← hidden.natList? }
   | _ => none
 
 def tm? : Sexp → Option TrainMap
@@ -39,6 +40,7 @@ def tm? : Sexp → Option TrainMap
 
 def flavour? : Sexp → Option FlavourSpec
   | .list [.atom "native", s, b] => do pure (.native (← sig? s) (← bool? b))
+  | .list [.atom "custom", s] => do pure (.custom (← sig? s))
   | .list [.atom "decorated", s, b] => do pure (.decorated (← sig? s) (← bool? b))
   | .list [.atom "wrapped", s, t] => do pure (.wrapped (← sig? s) (← tm? t))
   | _ => none
@@ -133,6 +135,9 @@ def stepOp (f : Flavour Int) (m : Machine) : Sexp → Option (Machine × Sexp)
       | .ok o' => pure (m.setReg r o', obsOk [])
       | .error e => pure (m, obsErr e)
   | .list [.atom "stateful"] => pure (m, obsOk [Sexp.ofBool f.isStateful])
+  | .list [.atom "forge", k, kw] => do
+    let k ← k.nat?; let kw ← pmap? kw
+    pure (m.setBlob k (some (.whole kw none)), obsOk [])
   | .list [.atom "getstate", r, k] => do
     let r ← r.nat?; let k ← k.nat?
     match m.reg r with
